@@ -424,7 +424,7 @@ class Ctx:
             for cand in rs[:3]:
                 rec = records[cand["i"]]
                 renv = dict(env or {}, VERIF_INDEX_BASE=str(cand["i"]))
-                for _ in range(max(1, getattr(self, "repro_attempts", 2))):
+                for _ in range(max(1, getattr(self, "repro_attempts", 4))):
                     again = self.harness(cmd, [rec], args=args, race=race, timeout=timeout, env=renv, pkg=pkg)
                     again = [r for r in again if "i" in r]
                     if again and not again[0].get("ok"):
